@@ -265,6 +265,8 @@ struct World {
 	bool storeBroken = false;         // a step the history cannot express (reset, exit) happened since the snapshot
 	bool logExact = true;             // every logged step so far was single-round and schedule-free
 	Op neutral;                       // card-less operation used for infrastructure calls
+	int curNode = -1; int curOpKind = -1;   // what is executing (for attributing an assertion hit)
+	void runBody();
 	std::string circumstance;         // tag of the documented defect whose trigger is present in the current operation
 	std::vector<AssertHit> asserts;
 	RunResult result;
